@@ -116,6 +116,15 @@ def run_for(pid, verbose=True, only=None):
     if bad:
         print(f"ANALYSIS-ERROR property={pid}: sensitivity self-test failed for {[v['id'] for v, _, _ in bad]}")
         return 2
+    # the automatic benign twin: every local variable of every function renamed (tools/alpha_twin.py)
+    if not only:
+        r = subprocess.run([sys.executable, str(VERIF / "tools" / "alpha_twin.py"), pid], cwd=str(VERIF), capture_output=True, text=True, timeout=900)
+        line = (r.stdout.strip().splitlines() or [""])[-1]
+        print(f"selftest {pid}: alpha-renaming twin: {line}")
+        if r.returncode != 0:
+            print(r.stdout[-800:])
+            print(f"ANALYSIS-ERROR property={pid}: the verdict depends on the spelling of a local variable")
+            return 2
     return 0
 
 
